@@ -18,12 +18,20 @@ import pipeline as P
 PROP = "C13"
 
 
+class GaveUp(Exception):
+    pass
+
+
 def one(ctx, S, coef, parity, crit, maxiter):
     d = ctx.driver()
     errs = []
     orig = S.SymmetricQSPProtocol.gen_jacobian
 
+    limit = 300 if maxiter is None else int(maxiter) + 50      # the library's default maxiter is 1e5: do not sit through it
+
     def rec(self):
+        if len(errs) >= limit:
+            raise GaveUp("%d Newton iterations without a break (errors %.3e ... %.3e)" % (len(errs), errs[0], errs[-1]))
         f, df = orig(self)
         errs.append(float(np.linalg.norm(np.asarray(f) - np.asarray(coef), ord=1)))
         return f, df
@@ -47,6 +55,10 @@ def one(ctx, S, coef, parity, crit, maxiter):
     ctx.count("setting:%s/%s" % ("default" if crit is None else crit, "default" if maxiter is None else maxiter))
     ctx.case([coef, parity, crit, maxiter], True, {"k": k, "norm1": n1, "parity": parity, "crit": crit, "maxiter": maxiter, "outcome": out[:20], "coef": coef[:4]})
     replay = {"coef": coef, "parity": parity, "crit": crit, "maxiter": maxiter}
+    if out.startswith("GaveUp"):
+        replay.update({"errors_seen": errs[:40]})
+        ctx.violation("c13:convergence", "solver did not stop by its criterion within 30 iterations: " + out, replay)
+        return
     if out != "ok":
         ctx.violation("c13:raises", "newton_Solver raised: " + out, replay)
         return
@@ -99,8 +111,8 @@ def run(tier, seed):
     rng = ctx.rng
     q = tier == "quick"
     ks = [1, 2, 3, 4, 5, 6, 8, 10, 14, 20, 30, 45, 60, 80] if q else list(range(1, 81))
-    for k in ks:
-        for rep in range(5 if q else 6):
+    for k in range(1, 81):                 # every length of the property's range at least once
+        for rep in range((5 if q else 6) if k in ks else 1):
             parity = int(rng.choice([0, 1]))
             v = rng.normal(size=k)
             style = rng.random()
@@ -109,6 +121,9 @@ def run(tier, seed):
             elif style < 0.3:
                 v = np.zeros(k); v[-1] = 1.0        # single high-order term
             norm = float(rng.uniform(0.05, 0.9)) if rng.random() < 0.8 else 0.9
+            if rng.random() < 0.2:
+                norm = float(10 ** rng.uniform(-11.5, -1.5))       # "1-norm in (0, 0.9]": tiny targets belong to the domain
+                ctx.count("tiny-target")
             coef = [float(x) for x in v / np.abs(v).sum() * norm]
             r = rng.random()
             if r < 0.6:
